@@ -188,9 +188,10 @@ func TestVerifC22ALPS(t *testing.T) {
 			st.NonTrivial(fmt.Sprintf("%s|no-alpn|%d", src.Name, s.ALPSCodepoint))
 			return
 		case "other-codepoint":
-			// not covered by the statement (the code point was not offered): only "no hang/panic" is demanded
+			// the statement quantifies over ALPS-capable parrots x server codepoint {old, new}: the server may negotiate
+			// on the codepoint this hello did not carry; the client then answers on the SERVER's codepoint, like in the
+			// matching case (judged below)
 			st.Class(fmt.Sprintf("other-codepoint-accepted=%v", cerr == nil))
-			return
 		}
 		if !alpsProtos[alpn] {
 			// settings for a protocol the client did not list in its ALPS extension: outside the statement
